@@ -325,3 +325,57 @@ def loadPickle {ρ δ β} (load : β → Stored ρ δ) (stats : ρ → δ) (byte
   recalc stats (load bytes)
 
 end Reports
+
+/-! ## histories of one `Parameters` object (state = values + the TOML document it holds) -/
+
+namespace Params
+
+/-- the object: the dictionary of parameters and the document left by the last `read_file` /
+`dump_file` (`None` at the start) -/
+structure PState where
+  params : List Entry
+  doc : Option Doc
+
+inductive POp where
+  /-- `read_file` of a file with this content -/
+  | read (d : Doc)
+  /-- `set_value(name, value, section)` (also the keyword arguments and property setters of BIOGEME) -/
+  | set (sec : Option String) (name : String) (v : Val)
+  /-- `add_parameter` of a user parameter -/
+  | add (e : Entry)
+  /-- `dump_file` -/
+  | dump
+
+/-- the file `dump_file` writes: the document is **regenerated from the current values**,
+whatever document the object holds (read from an incomplete file, left by an earlier dump) -/
+def dumpDoc (s : PState) : Doc := generateDocument s.params
+
+def allTypeOK (ps : List Entry) : Bool := ps.all fun e => typeOK e.type e.value
+
+/-- one operation.  `set_value` / `add_parameter` that are refused raise before anything is stored:
+the state is unchanged.  `none`: the history leaves the domain of the round-trip statement — a
+`read_file` that raises half-way (the entries before the bad one are already imported), or a
+value stored that is not of the declared kind (`param_roundtrip_needs_type`). -/
+def stepP (algos : List String) (s : PState) : POp → Option PState
+  | .read d =>
+    match importDocument algos s.params d with
+    | .ok ps => if allTypeOK ps then some ⟨ps, some d⟩ else none
+    | .error _ => none
+  | .set sec name v =>
+    match setValue algos s.params sec name v with
+    | .ok ps => if allTypeOK ps then some ⟨ps, s.doc⟩ else none
+    | .error _ => some s
+  | .add e =>
+    match addParameter algos s.params e with
+    | .ok ps => if allTypeOK ps then some ⟨ps, s.doc⟩ else none
+    | .error _ => some s
+  | .dump => some ⟨s.params, some (dumpDoc s)⟩
+
+def runP (algos : List String) : PState → List POp → Option PState
+  | s, [] => some s
+  | s, op :: ops =>
+    match stepP algos s op with
+    | some s' => runP algos s' ops
+    | none => none
+
+end Params
